@@ -274,7 +274,7 @@ func c23Rotate(c *core.Ctx, work, dir string, opt badger.Options, m *model.DB, o
 	bin := filepath.Join(work, "badger-cli")
 	if _, err := os.Stat(bin); err != nil {
 		cmd := exec.Command("go", "build", "-o", bin, "./badger")
-		cmd.Dir = "/repo"
+		cmd.Dir = repoDir()
 		if out, err := cmd.CombinedOutput(); err != nil {
 			c.Inconclusive("cannot build the badger command: " + string(out))
 			return
@@ -356,4 +356,12 @@ func c23CrashScan(c *core.Ctx, work string) {
 		c.Distinct("crash-image|" + cfg.name + "|" + si.killed)
 		os.RemoveAll(filepath.Dir(specPath))
 	}
+}
+
+// repoDir is the badger tree the harness was built against (/repo unless a background sweep froze a snapshot).
+func repoDir() string {
+	if d := os.Getenv("VERIF_REPO"); d != "" {
+		return d
+	}
+	return "/repo"
 }
